@@ -176,7 +176,45 @@ def _run_part_hyp(part, ctx, deadline_at):
     return None, stopped[0]
 
 
+class _CaseTimeout(BaseException):
+    """Raised by the per-case watchdog (SIGALRM) inside whatever the case is doing."""
+
+
+CASE_TIME_LIMIT = {"quick": 60, "thorough": 180}   # seconds; ordinary cases take milliseconds
+
+
+def _alarm(signum, frame):
+    raise _CaseTimeout()
+
+
 def call_check(part, case, ctx):
+    """Run one case under a watchdog. A case that does not finish within CASE_TIME_LIMIT (a changed library may loop or blow
+    up exponentially on some generated program) is abandoned and counted as inconclusive - a time limit never decides a
+    property - so that no check can hang."""
+    import signal
+    import threading
+    armed = False
+    if threading.current_thread() is threading.main_thread() and hasattr(signal, "setitimer"):
+        try:
+            signal.signal(signal.SIGALRM, _alarm)
+            signal.setitimer(signal.ITIMER_REAL, CASE_TIME_LIMIT.get(getattr(ctx, "tier", "quick"), 60))
+            armed = True
+        except Exception:
+            armed = False
+    try:
+        return _call_check(part, case, ctx)
+    except _CaseTimeout:
+        try:
+            ctx.exclude("case-timed-out-inconclusive")
+        except Exception:
+            pass
+        return None
+    finally:
+        if armed:
+            signal.setitimer(signal.ITIMER_REAL, 0)
+
+
+def _call_check(part, case, ctx):
     """Run one case. An exception that is neither a Violation nor raised by the harness's own code but comes out of the
     labrea package itself while a generated (valid) program is being built or driven outside the checks' guarded calls
     is a behaviour the reference never allows (construction, registration and reflection of a valid program succeed on
@@ -302,6 +340,12 @@ def _run_part_enum(part, ctx, deadline_at):
 
 def run_shard(args):
     pid, tier, seed, shard, nshards, flags, wall_cap, only = args
+    try:
+        import faulthandler
+        import signal
+        faulthandler.register(signal.SIGUSR1, all_threads=True)     # kill -USR1 <shard pid> prints where it is
+    except Exception:
+        pass
     try:
         mod = _load(pid)
         ctx = Ctx(pid, tier, seed, shard, nshards, flags)
